@@ -26,6 +26,25 @@ HISTORY = {
     'C13_B': 'first caught only by C06; C13 now decides the covariance end to end and stage by stage',
     'C18_B': 'missed at first; caught by the new zero-line rule (R-INDEX) - this prompted the affine index rules for the whole matrix code',
     'C20_B': 'first an ANALYSIS-ERROR (early return not modelled); caught after return paths were enumerated',
+    # round 2 (ids C/D)
+    'C01_C': 'missed at first (guards were matched by syntax); caught by the semantic input-domain guard rule (sv/guards.py)',
+    'C01_D': 'first only C15; C01 now threads the ellipsoid / projection through the object wrappers of its observe_at list',
+    'C02_D': 'missed at first; caught by the semantic input-domain guard rule (north = 0 is inside the domain)',
+    'C03_D': 'missed at first; caught by the table of defining constants of the shipped ellipsoids',
+    'C04_D': 'missed at first (angular_typecheck was only used as a frozen summary); caught by the dispatch rule on angular_typecheck itself, with value semantics of and/or in the evaluator',
+    'C05_C': 'missed at first (acos(cos s) == atan2(sin s, cos s) as functions); caught by the conditioning rule R-COND',
+    'C05_D': 'UNDECIDED at first; caught by the case split on special-input branches with a numeric witness',
+    'C06_D': 'UNDECIDED / ANALYSIS-ERROR at first; caught after copy(), vars(), setattr() and path-sensitive attribute stores were modelled and a type-dependence rule added',
+    'C07_C': 'first only C09; C07 now applies the state rule (memo under a lossy key)',
+    'C09_D': 'missed at first; caught after results of functions that hand a parameter back were treated as aliases of the argument',
+    'C10_D': 'first only C09; the functional properties now apply the state rule with memo-key analysis',
+    'C12_D': 'UNDECIDED at first (fmod unmodelled); caught after fmod became a function symbol of its own',
+    'C13_D': 'missed at first; caught by the table of published GDA94->GDA2020 parameters and uncertainties',
+    'C14_D': 'missed at first; caught by the semantic guard rule with range membership modelled (second point in the eastern neighbour zone)',
+    'C15_C': 'missed at first; caught by the typed notation dispatch rule (a float holds decimal degrees)',
+    'C17_D': 'missed at first; caught by the skip-count rule (node count of the sub-grid being stepped over)',
+    'C18_D': 'missed at first; caught by the sign-string rule (DMSAngle takes the sign from the first character)',
+    'C08_C': 'patch re-based after the HP repairs; first UNDECIDED, caught after str(float) was modelled as a non-fixed-point rendering',
 }
 
 
@@ -45,7 +64,8 @@ def section(notes, *heads):
     return ' '.join(out)[:1200]
 
 
-def main(seed_out, seed_eval):
+def main(seed_out, seed_eval, rename=None):
+    rename = rename or {}
     dst_root = os.path.join(VERIF, 'seeded')
     os.makedirs(dst_root, exist_ok=True)
     index = []
@@ -54,8 +74,8 @@ def main(seed_out, seed_eval):
             d = os.path.join(seed_out, prop, ab)
             if not os.path.isdir(d):
                 continue
-            sid = '%s_%s' % (prop, ab)
-            ev = os.path.join(seed_eval, sid + '.json')
+            sid = '%s_%s' % (prop, rename.get(ab, ab))
+            ev = os.path.join(seed_eval, '%s_%s.json' % (prop, ab))
             if not os.path.exists(ev):
                 print('no evaluation for', sid)
                 continue
@@ -94,13 +114,22 @@ def main(seed_out, seed_eval):
             with open(os.path.join(dst, 'meta.json'), 'w') as f:
                 json.dump(meta, f, indent=1)
             index.append((sid, title, sorted(fired), prop in fired))
+    index = []
+    for d_ in sorted(os.listdir(dst_root)):
+        mp = os.path.join(dst_root, d_, 'meta.json')
+        if os.path.exists(mp):
+            mm = json.load(open(mp))
+            index.append((mm['id'], mm['title'], mm['checks_fired'], mm['target_check_fires']))
     with open(os.path.join(dst_root, 'INDEX.md'), 'w') as f:
         f.write('# Seeded changes (never committed to /repo)\n\nEach directory: patch.diff, demo.py (exit 0 pristine / 1 patched), notes.md (the agent\'s own), meta.json.\n'
-                'Re-confirm and re-evaluate one with `tools/seed_eval.py seeded/<id>`.\n\n| id | change | checks that fire | its own property fires |\n|---|---|---|---|\n')
+                'Ids ending in A, B: first round; C, D: second round (agents were told the first-round titles and asked for a different kind and place).\n'
+                'Re-confirm and re-evaluate one with `tools/seed_eval.py seeded/<id>`; `tools/run_demos.py` runs every demo on /repo (all must pass).\n\n'
+                '| id | change | checks that fire | its own property fires |\n|---|---|---|---|\n')
         for sid, title, fired, hit in index:
             f.write('| %s | %s | %s | %s |\n' % (sid, title.split(' - ', 1)[-1], ', '.join(fired), 'yes' if hit else 'NO'))
-    print('%d seeds collected, %d caught by their own property' % (len(index), sum(1 for x in index if x[3])))
+    print('%d seeds indexed, %d caught by their own property' % (len(index), sum(1 for x in index if x[3])))
 
 
 if __name__ == '__main__':
-    main(sys.argv[1], sys.argv[2])
+    rn = dict(kv.split('=') for kv in sys.argv[3].split(',')) if len(sys.argv) > 3 else None
+    main(sys.argv[1], sys.argv[2], rn)
